@@ -3,7 +3,7 @@
   geo     : llh2xyz on ellipsoids x latitude (incl. 0, +-90) x longitude [-360, 360] x height x input types,
             against the closed form in 40-digit arithmetic (<= 1 um); then xyz2llh (depth 2), its result
             re-projected BY THE ORACLE must reproduce the Cartesian input (<= 0.02 mm), lon in [-180, 180]
-  cart    : lattice placed directly in Cartesian space (all octants, near-axis p down to 1 mm,
+  cart    : lattice placed directly in Cartesian space (all octants, near-axis p swept by quarter decades down to 1e-9 m (1e-12 thorough),
             heights classified by the oracle inverse to [-1e4, 4e7])
 """
 import math
@@ -97,6 +97,22 @@ def ev_geo(case, rec):
                 rec.fail('angle-class input gives a different result from its decimal-degree value',
                          site='convert:llh2xyz:intype', observed=list(r), expected=list(r2), case=one, coords=co)
             latf, lonf = la.dec(), lo.dec()
+            # each argument is read on its own: object with float, float with object, two different classes
+            others = [k for k in cfg.INTYPES[1:] if k != kind]
+            ok2 = others[int(abs(lon) * 7 + abs(lat)) % len(others)]
+            mixes = [('obj,float', cfg.unwrap(la), lonf), ('float,obj', latf, cfg.unwrap(lo))]
+            try:
+                mixes.append(('%s,%s' % (kind, ok2), cfg.unwrap(la), cfg.unwrap(cfg.as_type(lonf, ok2))))
+                mixes.append(('%s,%s' % (ok2, kind), cfg.unwrap(cfg.as_type(latf, ok2)), cfg.unwrap(lo)))
+            except Exception:
+                pass
+            for nm, a1, a2 in mixes:
+                st3, r3 = rec.call(llh2xyz, a1, a2, h, cfg.ell_obj(ell))
+                tol3 = 0.0 if ',' in nm and 'obj' in nm else 1e-6
+                if st3 != 'ok' or max(abs(u - v) for u, v in zip(r3, r)) > tol3:
+                    rec.fail('mixed argument forms (%s) give a different result from the same angles in one form' % nm,
+                             site='convert:llh2xyz:mixed-forms', observed=r3 if st3 != 'ok' else list(r3), expected=list(r),
+                             case=one, coords=dict(co, mix=nm))
         else:
             latf, lonf = lat, lon
         rec.nontriv((ell, lat, lon, h, kind))
@@ -127,6 +143,9 @@ AZ = [0.0, 45.0, 90.0, 135.0, 180.0, 225.0, 270.0, 315.0, 13.7, 179.99999, 180.0
 
 def gen_cart(tier, seed):
     ps = PS + ([] if tier == 'quick' else [0.1, 100.0, 1e4, 1e6, 5e6, 1e7, 3e7])
+    # near-axis sweep: the property covers every p > 0
+    ps = ps + ([10 ** (k / 4) for k in range(-36, -3)] if tier == 'quick' else [10 ** (k / 8) for k in range(-96, -7)])
+    ps = uniq(ps)
     zs = ZS + ([] if tier == 'quick' else [10.0, 1e5, 1e6, 5e6, 1e7, 3e7])
     azs = AZ + fill(7.0, 359.0, 60.0 if tier == 'quick' else 15.0, seed, 13, include_shift=False)
     for ell in cfg.E9:
@@ -158,8 +177,8 @@ def ev_cart(case, rec):
 
 
 SUBCHECKS = [
-    Sub('geo', gen_geo, ev_geo, chunk=8, floor=1000),
-    Sub('cart', gen_cart, ev_cart, chunk=8, floor=300),
+    Sub('geo', gen_geo, ev_geo, chunk=8, floor=1000, envs=6),
+    Sub('cart', gen_cart, ev_cart, chunk=8, floor=300, envs=12),
 ]
 
 
